@@ -34,7 +34,7 @@ From AV Require Import Base.Bytes Base.Outcome Hash.HashModel Tree.Heap Tree.Ops
 From AV Require Import Tree.Files Tree.FilesProofsProj Tree.FilesProofsFrame Tree.FilesProofsAdd Tree.FilesProofsRemove Tree.FilesProofsExact Tree.FilesProofsLast Tree.FilesProofsMove
   Tree.FilesProofsInv Tree.FilesProofsHist Tree.FilesProofsTop Tree.FilesProofsExact2 Tree.FilesProofsOwned Tree.FilesProofsText Tree.FilesProofsLoad Tree.FilesProofsOp2.
 From AV Require Import Tree.Script2.
-From AV Require Tree.Index Xml.Parser Xml.Serializer Xml.RoundTripFile.
+From AV Require Tree.Index Tree.Copy Xml.Parser Xml.Serializer Xml.RoundTripFile.
 Open Scope list_scope.
 Open Scope N_scope.
 
@@ -403,6 +403,18 @@ Theorem C10_reachable2_owned :
            attr_schema_location root_attrs l empty_world = Val w' ->
   TreeInv w' /\ FilesInv T w' /\ FilesOwned w'.
 Proof. exact reachable2_owned. Qed.
+
+(* AutosarModel::duplicate (PENDING for FilesInv of the copy): FilesOwned is kept, the models that were there keep their
+   places and their invariant *)
+Theorem C10_duplicate_partial :
+  forall (T : tables) (tab_el tab_en : nametab) (check_fn : N -> list N -> res bool) (LATEST : N)
+         (root_attrs : list (N * cdata)) (m : N) (w : world) (r : out N) (w' : world),
+  Core w -> FilesInv T w -> FilesOwned w ->
+  Copy.m_duplicate T tab_el tab_en check_fn LATEST root_attrs m w = Val (r, w') ->
+  FilesOwned w' /\
+  firstn (List.length (w_models w)) (w_models w') = w_models w /\
+  forall x, In x (w_models w) -> FilesInvM T w' x.
+Proof. exact duplicate_partial. Qed.
 
 Theorem C10_self_contained :
   forall (T : tables) (Loads : world -> option N -> id -> Prop),
